@@ -340,6 +340,45 @@ def run_injectors(ctx, conn):
                 ctx.violation(f'c05.invalid_statement_accepted.{rule}', f'[{rule}] accepted: {text!r} params={params!r}', case)
 
 
+REUSE_CASES = [
+    # (text, [(params, expect)...]) : ONE parsed statement object compiled with each parameter set in turn
+    ('SELECT i FROM #t WHERE i > %s AND j < %s', [([1, 2], 'accept'), ([1], 'reject'), ([1, 2, 3], 'reject'), ([], 'reject'), ([3, 4], 'accept')]),
+    ('SELECT i FROM #t WHERE i > %s', [([1], 'accept'), ([], 'reject'), ([1, 2], 'reject'), ([2], 'accept')]),
+    ('SELECT i FROM #t WHERE i > %s AND s ~ %s', [([1, 'a'], 'accept'), (['a', 'a'], 'reject'), ([1, 1], 'reject'), ([2, 'b'], 'accept')]),
+    ('SELECT i FROM #t WHERE i > %(a)s AND j < %(b)s', [({'a': 1, 'b': 2}, 'accept'), ({'a': 1}, 'reject'), ({'b': 1}, 'reject'), ({'a': 1, 'b': 2, 'c': 3}, 'accept')]),
+    ('SELECT i, count(*) FROM #t GROUP BY 1 HAVING count(*) > %s ORDER BY count(*) + %s, 1', [([0, 1], 'accept'), ([0], 'reject'), ([0, 'x'], 'reject'), ([1, 2], 'accept')]),
+    ('SELECT i FROM #t WHERE j IN (SELECT j FROM #t WHERE j > %s) AND i < %s', [([0, 5], 'accept'), ([0], 'reject'), ([0, 5, 6], 'reject')]),
+    ('SELECT i FROM #t ORDER BY 3', [(None, 'reject'), (None, 'reject')]),
+    ('SELECT i + s FROM #t', [(None, 'reject'), (None, 'reject')]),
+    ('SELECT i, s FROM #t GROUP BY i', [(None, 'reject'), (None, 'reject')]),
+    ('SELECT i, s, count(*) FROM #t GROUP BY 1, 2 PIVOT BY 1, 2', [(None, 'accept'), (None, 'accept')]),
+    ('SELECT date FROM OPEN ON 2020-01-02 CLOSE ON 2020-01-01', [(None, 'reject'), (None, 'reject')]),
+    ('BALANCES AT cost FROM year = %s', [([2020], 'accept'), ([], 'reject'), ([2020, 1], 'reject'), ([2021], 'accept')]),
+]
+
+
+def run_reuse(ctx, conn):
+    """The verdict on a statement depends on the statement and its parameters only, not on earlier compilations of the same parsed object."""
+    from beanquery import compiler
+    for text, steps in REUSE_CASES:
+        stmt = conn.parse(text)
+        for n, (params, expect) in enumerate(steps):
+            phase, outcome, exc = attempt(conn, None, params, ast=stmt)
+            fresh = attempt(conn, text, params)
+            rejected = outcome in ('ParseError', 'CompilationError', 'ProgrammingError')
+            case = {'text': text, 'steps': [repr(s_) for s_ in steps], 'step': n}
+            ctx.case(('reuse', text, n), True)
+            ctx.count('obs.reused_statement_compilations')
+            if outcome not in ('ok', 'ParseError', 'CompilationError', 'ProgrammingError'):
+                ctx.violation(f'c05.reused_statement.wrong_exception_class.{outcome}',
+                              f'{text!r} compiled for the {n + 1}. time with params {params!r}: {type(exc).__name__}: {exc}', case)
+                break
+            if (expect == 'accept') != (outcome == 'ok') or fresh[1] != outcome:
+                ctx.violation('c05.reused_statement.verdict_depends_on_history',
+                              f'{text!r} compiled for the {n + 1}. time with params {params!r}: {outcome} (expected {expect}; a fresh parse gives {fresh[1]})', case)
+                break
+
+
 ROBUST_SEEDS = [
     'SELECT 2020-13-45', 'SELECT 0000-01-01', 'SELECT 2021-02-29', 'SELECT date FROM OPEN ON 2020-02-30', 'SELECT 2020-00-10, 1',
     'SELECT date WHERE date > 2020-04-31', 'SELECT i FROM #t LIMIT 9999999999999999999999999999999999999999',
@@ -455,6 +494,8 @@ def run(ctx):
     engine.bq()
     conn = make_conn(ctx.rng('conn'))
     run_injectors(ctx, conn)
+    if ctx.shard % 4 == 0:
+        run_reuse(ctx, conn)
     for n in range(ctx.pick(150, 6000)):
         if ctx.out_of_time():
             break
@@ -480,6 +521,8 @@ def finalize(merged):
     reasons = []
     if c.get('injectors.executed', 0) < c.get('injectors.total', 1):
         reasons.append('injector list not completely executed')
+    if c.get('obs.reused_statement_compilations', 0) == 0:
+        reasons.append('no re-used parsed statement compiled')
     if c.get('obs.locations_validated', 0) == 0:
         reasons.append('no error location validated')
     if c.get('obs.valid_accepted', 0) == 0 or c.get('obs.invalid_rejected', 0) == 0:
